@@ -20,6 +20,8 @@ struct TimeGen {
     lo: i64,
     hi: i64,
     last_dt: i64,
+    /// only intervals inside [lo, hi] (no special or related intervals)
+    plain: bool,
 }
 impl TimeGen {
     fn new(rng: &mut Rng) -> Self {
@@ -44,9 +46,15 @@ impl TimeGen {
             3 => (100_000_000, 10_000_000_000),
             _ => (1_000_000_000, 14_400_000_000_000),
         };
-        TimeGen { t, lo, hi, last_dt: 0 }
+        TimeGen { t, lo, hi, last_dt: 0, plain: false }
     }
     fn step(&mut self, rng: &mut Rng) -> i64 {
+        if self.plain {
+            let dt = rng.log_uniform(self.lo, self.hi);
+            self.last_dt = dt;
+            self.t += dt;
+            return self.t;
+        }
         let mut dt = if rng.chance(0.08) {
             *rng.pick(&SPECIAL_DT)
         } else {
@@ -198,13 +206,41 @@ pub fn gen_node(prop: &str, kind: &str, profile: u8, tier: Tier, rng: &mut Rng, 
         nev = rng.range(130, 320) as usize;
     }
     let rate = fault_rate(rng, profile == 0);
-    let scale = *rng.pick(&[1.0f32, 1.0, 0.125, 16.0, 256.0]);
+    let mut scale = *rng.pick(&[1.0f32, 1.0, 0.125, 16.0, 256.0]);
+    // "all finite gains" / unbounded values: a few controller runs live at 1e27 with gains around
+    // 1e-24 (outputs stay moderate; internal integrals pass 1e30). Intervals between 1 ms and 100 s keep
+    // every intermediate inside the f32 range.
+    let huge = matches!(kind, "pid" | "cpid") && rng.chance(0.03);
+    if huge {
+        scale *= 1e27;
+        for k in ["kp", "ki", "kd", "pkp", "pki", "pkd", "vkp", "vki", "vkd", "akp", "aki", "akd"] {
+            if plan.h.contains_key(k) {
+                let g = plan.getf(k) * 1e-24;
+                plan.setf(k, g);
+            }
+        }
+        if kind == "pid" {
+            let sp = plan.getf("setpoint") * 1e27;
+            plan.setf("setpoint", sp);
+        } else {
+            let c = f32::from_bits(plan.get("cmd_bits") as u32) * 1e27;
+            plan.set("cmd_bits", fb(c));
+        }
+    }
     let one_signed = rng.chance(0.5);
     plan.set("one_signed", one_signed as i64);
     let constant = if profile == 2 && rng.chance(0.15) { Some(rng.moderate_f32() * scale) } else { None };
     // "ulp walk": consecutive samples are neighbouring floats (1..3 ulps apart), and the reference
     // they are compared with (setpoint / command) is often 0 so that the error is exactly the sample
-    let ulp_walk = rng.chance(0.08);
+    // "ramp": a signal that is exactly linear in time - equal steps on a fixed-rate grid, or slope x
+    // whole seconds on an irregular whole-second grid - so that consecutive difference quotients are
+    // exactly equal (a mechanism cruising at constant speed read by a fixed-rate loop)
+    let ramp = if rng.chance(0.06) { rng.range(1, 2) } else { 0 };
+    let ramp_dt: i64 = *rng.pick(&[1_000_000i64, 10_000_000, 1_000_000_000, 2_000_000_000, 250_000_000, 1 << 30]);
+    let ramp_inc: f32 = *rng.pick(&[1.0f32, 2.0, -3.0, 0.5, 0.125, 7.0]) * scale;
+    let ramp_base: f32 = rng.range(-8, 8) as f32 * scale;
+    let mut ramp_k: i64 = 0;
+    let ulp_walk = ramp == 0 && rng.chance(0.08);
     if ulp_walk && rng.chance(0.6) {
         match kind {
             "pid" => plan.setf("setpoint", 0.0),
@@ -228,8 +264,13 @@ pub fn gen_node(prop: &str, kind: &str, profile: u8, tier: Tier, rng: &mut Rng, 
     }
     // C11 and C12 put no lower bound on the sampling interval: a sixth of their runs sample at
     // nanosecond spacing (1 ns .. 1 us, with the f32::EPSILON-second neighbourhood as special values)
+    if huge {
+        tg.lo = 1_000_000;
+        tg.hi = 100_000_000_000;
+        tg.plain = true;
+    }
     let mut tiny_dt = false;
-    if matches!(kind, "cpid" | "ewma_f" | "ewma_q") && rng.chance(0.17) {
+    if !huge && matches!(kind, "cpid" | "ewma_f" | "ewma_q") && rng.chance(0.17) {
         tg.lo = 1;
         tg.hi = *rng.pick(&[8, 200, 1_000, 1_000_000]);
         tiny_dt = true;
@@ -328,12 +369,24 @@ pub fn gen_node(prop: &str, kind: &str, profile: u8, tier: Tier, rng: &mut Rng, 
             } else if tiny_dt && rng.chance(0.25) {
                 tg.t += *rng.pick(&[1, 2, 64, 118, 119, 120, 121, 999]);
                 tg.t
+            } else if ramp == 1 {
+                ramp_k += 1;
+                tg.t += ramp_dt;
+                tg.t
+            } else if ramp == 2 {
+                let steps = rng.range(1, 4);
+                ramp_k += steps;
+                tg.t += steps * 1_000_000_000;
+                tg.t
             } else {
                 tg.step(rng)
             };
             have_sample = true;
             since_error += 1;
             let mut v = value_gen(rng, scale, one_signed, constant);
+            if ramp != 0 {
+                v = ramp_base + ramp_inc * ramp_k as f32;
+            }
             if ulp_walk {
                 if let Some(p) = prev_v {
                     if p.is_normal() && rng.chance(0.85) {
@@ -362,6 +415,11 @@ pub fn gen_node(prop: &str, kind: &str, profile: u8, tier: Tier, rng: &mut Rng, 
             } else {
                 plan.push("S", &[t, fb(v)]);
             }
+        }
+        // the sensor's OWN update starts / stops failing (streams do not drive their inputs, so this
+        // must be invisible)
+        if profile == 0 && rng.chance(0.04) {
+            plan.push("SUE", &[if rng.chance(0.7) { rng.range(1, 3) } else { 0 }]);
         }
         // stall: sometimes change the sensor again before updating
         if profile == 0 && rng.chance(0.06) && push_fault(&mut plan, rng) {
